@@ -406,8 +406,9 @@ func (s *recvStream) Recv() (*hashmailrpc.CipherBox, error) {
 		return nil, s.failed
 	}
 	r := s.r
+	// s.b is also cleared by the context watcher below (under r.mu).
+	r.mu.Lock()
 	if s.b == nil {
-		r.mu.Lock()
 		b, ok := r.boxes[s.id]
 		switch {
 		case !ok:
@@ -423,7 +424,6 @@ func (s *recvStream) Recv() (*hashmailrpc.CipherBox, error) {
 		b.reader = true
 		s.b = b
 		r.logf("recvstream", s.id, "")
-		r.mu.Unlock()
 		go func(ctx context.Context) {
 			<-ctx.Done()
 			r.mu.Lock()
@@ -432,6 +432,7 @@ func (s *recvStream) Recv() (*hashmailrpc.CipherBox, error) {
 		}(s.ctx)
 	}
 	b := s.b
+	r.mu.Unlock()
 	fail := func(err error) (*hashmailrpc.CipherBox, error) {
 		s.failed = err
 		r.mu.Lock()
